@@ -338,22 +338,62 @@ tokio::task_local! {
 /// Global wait-for graph.
 /// Key: waiting actor's ID, Value: target actor's Identity.
 #[cfg(feature = "deadlock-detection")]
-static WAIT_FOR: OnceLock<Mutex<HashMap<u64, Identity>>> = OnceLock::new();
+static WAIT_FOR: OnceLock<Mutex<HashMap<u64, (Identity, u64)>>> = OnceLock::new();
 
 #[cfg(feature = "deadlock-detection")]
-pub(crate) fn wait_for_graph() -> &'static Mutex<HashMap<u64, Identity>> {
+pub(crate) fn wait_for_graph() -> &'static Mutex<HashMap<u64, (Identity, u64)>> {
     WAIT_FOR.get_or_init(|| Mutex::new(HashMap::new()))
 }
 
 #[cfg(feature = "deadlock-detection")]
-pub(crate) struct WaitForGuard(pub(crate) u64);
+pub(crate) struct WaitForGuard(pub(crate) u64, pub(crate) u64);
 
 #[cfg(feature = "deadlock-detection")]
 impl Drop for WaitForGuard {
     fn drop(&mut self) {
-        if let Ok(mut graph) = wait_for_graph().lock() {
-            graph.remove(&self.0);
+        clear_wait_for(self.0, self.1);
+    }
+}
+
+/// Allocates a token identifying one in-flight `ask` edge.
+#[cfg(feature = "deadlock-detection")]
+pub(crate) fn next_wait_token() -> u64 {
+    static TOKENS: AtomicU64 = AtomicU64::new(1);
+    TOKENS.fetch_add(1, std::sync::atomic::Ordering::Relaxed)
+}
+
+/// Removes the edge of `caller` if it still belongs to the ask identified by `token`.
+#[cfg(feature = "deadlock-detection")]
+pub(crate) fn clear_wait_for(caller: u64, token: u64) {
+    if let Ok(mut graph) = wait_for_graph().lock() {
+        if graph.get(&caller).map(|(_, t)| *t) == Some(token) {
+            graph.remove(&caller);
         }
+    }
+}
+
+/// Sender half of an `ask` reply channel.
+#[cfg(not(feature = "deadlock-detection"))]
+pub(crate) type ReplySender = oneshot::Sender<Box<dyn std::any::Any + Send>>;
+
+/// Sender half of an `ask` reply channel. Sending the reply first removes the asker's
+/// wait-for edge: an answered ask no longer waits for anyone.
+#[cfg(feature = "deadlock-detection")]
+pub(crate) struct ReplySender {
+    pub(crate) tx: oneshot::Sender<Box<dyn std::any::Any + Send>>,
+    pub(crate) edge: Option<(u64, u64)>,
+}
+
+#[cfg(feature = "deadlock-detection")]
+impl ReplySender {
+    fn send(
+        self,
+        value: Box<dyn std::any::Any + Send>,
+    ) -> std::result::Result<(), Box<dyn std::any::Any + Send>> {
+        if let Some((caller, token)) = self.edge {
+            clear_wait_for(caller, token);
+        }
+        self.tx.send(value)
     }
 }
 
@@ -361,12 +401,12 @@ impl Drop for WaitForGuard {
 /// Self-ask (caller == callee) is checked by the caller before invoking this function,
 /// so this only handles cycles of 2+ hops.
 #[cfg(feature = "deadlock-detection")]
-pub(crate) fn has_path(graph: &HashMap<u64, Identity>, from: u64, to: u64) -> bool {
+pub(crate) fn has_path(graph: &HashMap<u64, (Identity, u64)>, from: u64, to: u64) -> bool {
     let mut current = from;
     let max_steps = graph.len();
     for _ in 0..max_steps {
         match graph.get(&current) {
-            Some(identity) => {
+            Some((identity, _)) => {
                 if identity.id == to {
                     return true;
                 }
@@ -381,7 +421,7 @@ pub(crate) fn has_path(graph: &HashMap<u64, Identity>, from: u64, to: u64) -> bo
 /// Format the cycle path for panic messages.
 #[cfg(feature = "deadlock-detection")]
 pub(crate) fn format_cycle_path(
-    graph: &HashMap<u64, Identity>,
+    graph: &HashMap<u64, (Identity, u64)>,
     caller: Identity,
     callee: Identity,
 ) -> String {
@@ -393,7 +433,7 @@ pub(crate) fn format_cycle_path(
     let max_steps = graph.len();
     for _ in 0..max_steps {
         match graph.get(&current) {
-            Some(identity) => {
+            Some((identity, _)) => {
                 path.push(identity.to_string());
                 if identity.id == caller.id {
                     break;
@@ -425,7 +465,7 @@ where
         self: Box<Self>,
         actor: &mut A,
         actor_ref: ActorRef<A>,
-        reply_channel: Option<oneshot::Sender<Box<dyn std::any::Any + Send>>>,
+        reply_channel: Option<ReplySender>,
     ) -> BoxFuture<'_, ()>;
 }
 
@@ -445,7 +485,7 @@ where
         self: Box<Self>,
         actor: &mut A,
         actor_ref: ActorRef<A>,
-        reply_channel: Option<oneshot::Sender<Box<dyn std::any::Any + Send>>>,
+        reply_channel: Option<ReplySender>,
     ) -> BoxFuture<'_, ()> {
         async move {
             let result = Message::handle(actor, *self, &actor_ref).await;
@@ -488,7 +528,7 @@ where
         /// The message payload containing the actual message data.
         payload: Box<dyn PayloadHandler<T>>,
         /// Optional channel to send the reply back to the caller (used for `ask` operations).
-        reply_channel: Option<oneshot::Sender<Box<dyn std::any::Any + Send>>>,
+        reply_channel: Option<ReplySender>,
         /// The actor reference for potential self-messaging or context.
         actor_ref: ActorRef<T>,
     },
